@@ -81,8 +81,6 @@ impl BitField {
         ensures r@ == bf_cut(self@, other@), (r@ =~= Set::<u64>::empty()) == self@.subset_of(other@), r@.len() == self@.difference(other@).len(),
     { unimplemented!() }
 }
-} // verus!
-verus! {
 impl BitField {
     /// BitField::union(iter of &BitField) = fold with `|` from the empty field: the union of all of them (the units pass `&vec` for `vec.iter()`)
     #[verifier::external_body]
@@ -92,12 +90,16 @@ impl BitField {
 pub open spec fn bf_union_is(v: Seq<BitField>, s: Set<u64>) -> bool {
     forall|b: u64| s.contains(b) <==> exists|i: int| 0 <= i < v.len() && (#[trigger] v[i])@.contains(b)
 }
-} // verus!
-verus! {
 /// `v.iter().copied()` handed to BitField::try_from_bits (collected there): the same numbers. The body IS the original expression, collected.
 #[verifier::external_body]
 pub fn vx_copied(v: &Vec<u64>) -> (r: Vec<u64>) ensures r@ == v@ { v.iter().copied().collect() }
 /// `acc.extend(&v)` (Extend<&u64> for Vec<u64>): appends the elements of v. The body IS the original statement.
 #[verifier::external_body]
 pub fn vx_extend_u64(acc: &mut Vec<u64>, v: &Vec<u64>) ensures final(acc)@ == old(acc)@ + v@ { acc.extend(v) }
+/// `let epoch: ChainEpoch = e.try_into()?` for an AMT index e: u64 (vstd has no specification of `i64: TryFrom<u64>`): Ok exactly when e fits an i64, with the
+/// same value. The body IS the original expression.
+#[verifier::external_body]
+pub fn vx_index_to_epoch(e: u64) -> (r: Result<ChainEpoch, AnyhowError>)
+    ensures r.is_ok() <==> e <= 0x7fff_ffff_ffff_ffff, r.is_ok() ==> r->Ok_0 == e,
+{ Ok(e.try_into()?) }
 } // verus!
